@@ -8,7 +8,7 @@
    Part F: entry points. *)
 From Coq Require Import List ZArith NArith Bool Arith Lia.
 From PP Require Import Model.Str Model.Results Model.Prog Model.Core Model.Entry Model.LR Model.LRT.
-From PP Require Import Proofs.Packrat Proofs.EqDec.
+From PP Require Import Proofs.Packrat Proofs.EqDec Proofs.PackratCore.
 Import ListNotations.
 
 (* ------------------------------------------------------------------------------------------- *)
@@ -286,4 +286,912 @@ Lemma same_fail_eq o1 o2 : same_fail o1 o2 = true -> o1 = o2.
 Proof.
   destruct o1 as [l1 r1|x1|], o2 as [l2 r2|x2|]; cbn; try discriminate; [|reflexivity].
   destruct (exn_eq_dec x1 x2); [|discriminate]. subst. reflexivity.
+Qed.
+
+(* ------------------------------------------------------------------------------------------- *)
+(* Part C: the calls issued by `step`                                                            *)
+(* ------------------------------------------------------------------------------------------- *)
+Inductive calls (C : args -> Prop) : prg -> Prop :=
+| C_ret o : calls C (Ret o)
+| C_call a k : C a -> (forall o, calls C (k o)) -> calls C (Call a k).
+
+Lemma Forall_insert_desc' {X} (P : X -> Prop) key x : forall l, P x -> Forall P l -> Forall P (insert_desc key x l).
+Proof.
+  induction l as [|y t IH]; intros Hx Hl; cbn; [constructor; [exact Hx|constructor]|].
+  destruct (key y <? key x)%Z; [constructor; assumption|].
+  inversion Hl; subst. constructor; [assumption|apply IH; assumption].
+Qed.
+
+Lemma Forall_sort_desc' {X} (P : X -> Prop) key (l : list X) : Forall P l -> Forall P (sort_desc key l).
+Proof.
+  unfold sort_desc. intros H. assert (Forall P (@nil X)) as H0 by constructor. revert H0. generalize (@nil X).
+  induction H as [|x l Hx Hl IH]; intros acc Ha; cbn; [exact Ha|].
+  apply IH. apply Forall_insert_desc'; assumption.
+Qed.
+
+Section Calls.
+Variable G : env.
+Variable tbl : nat -> option nat.
+Variable s : str.
+Hypothesis HG : forallb (fw tbl) G = true.
+
+Notation fwb := (fw tbl).
+Definition Cs (a : args) : Prop := a_s a = s /\ fwb (a_e a) = true.
+Notation K := (calls Cs).
+
+Lemma fwl_fix l : (fix fwl (l : list expr) : bool := match l with [] => true | x :: r => fwb x && fwl r end) l = forallb fwb l.
+Proof. induction l; cbn; congruence. Qed.
+
+Lemma fw_ign e : fwb e = true -> forallb fwb (ign_of e) = true.
+Proof. destruct e; cbn [fw ign_of]; rewrite ?fwl_fix; intros H; repeat (apply andb_prop in H as [H ?]); auto. Qed.
+
+Ltac ret := apply C_ret.
+Ltac callc Hc := apply C_call; [split; [reflexivity|exact Hc]|intros [?l ?r|?x|]].
+
+Lemma K_skip_inner fail fuel : forall ig loc found k,
+  fwb ig = true -> (forall x, K (fail x)) -> (forall l b, K (k l b)) -> K (skip_ign_inner fail fuel ig s loc found k).
+Proof.
+  induction fuel as [|f IH]; intros ig loc found k Hw Hf Hk; cbn [skip_ign_inner]; [ret|].
+  unfold call. callc Hw.
+  - apply IH; assumption.
+  - destruct (is_pe (xk x)); [apply Hk|apply Hf].
+  - ret.
+Qed.
+
+Lemma K_skip_pass fail fuel : forall igs loc found k,
+  forallb fwb igs = true -> (forall x, K (fail x)) -> (forall l b, K (k l b)) -> K (skip_ign_pass fail fuel igs s loc found k).
+Proof.
+  induction igs as [|ig igs IH]; intros loc found k Hw Hf Hk; cbn [skip_ign_pass]; [apply Hk|].
+  cbn in Hw. apply andb_prop in Hw as [H1 H2].
+  apply K_skip_inner; try assumption. intros l b. apply IH; assumption.
+Qed.
+
+Lemma K_skip_ignorables fail : forall rounds igs loc k,
+  forallb fwb igs = true -> (forall x, K (fail x)) -> (forall l, K (k l)) -> K (skip_ignorables fail rounds igs s loc k).
+Proof.
+  induction rounds as [|r IH]; intros igs loc k Hw Hf Hk; destruct igs as [|ig igs]; cbn [skip_ignorables]; try apply Hk; [ret|].
+  apply K_skip_pass; try assumption.
+  intros l b. destruct (negb b); [apply Hk|]. destruct (Nat.eqb l loc); [apply Hk|]. apply IH; assumption.
+Qed.
+
+Lemma K_pre_parse fail e loc k :
+  fwb e = true -> (forall x, K (fail x)) -> (forall l, K (k l)) -> K (pre_parse fail e s loc k).
+Proof.
+  intros Hw Hf Hk. pose proof (fw_ign e Hw) as Hi.
+  unfold pre_parse.
+  destruct e as [a i t| | | | |]; try (apply K_skip_ignorables; [exact Hi|exact Hf|intros; apply Hk]).
+  destruct t; try (apply K_skip_ignorables; [exact Hi|exact Hf|intros; apply Hk]).
+  - destruct loc; [apply Hk|]. destruct orig_has_nl; apply Hk.
+  - destruct (Nat.eqb (col_at s loc) c); [apply Hk|]. apply K_skip_ignorables; [exact Hi|exact Hf|intros; apply Hk].
+Qed.
+
+Lemma K_escape x : K (escape x).
+Proof. ret. Qed.
+
+Lemma K_finish e d pl l r : K (finish e d pl l r).
+Proof.
+  unfold finish. destruct (acts (attrs_of e)); [ret|].
+  destruct (d || calltry (attrs_of e)); [|ret]. destruct (run_actions _ _ _ _); ret.
+Qed.
+
+Lemma K_step_k e d pl res : K (step_k e s d pl res).
+Proof.
+  unfold step_k. destruct res as [[l r|x|]|[l r]]; try apply K_finish; [ret|].
+  destruct (mayidx (attrs_of e) || Nat.leb (length s) pl); ret.
+Qed.
+
+Section Impl.
+Variable k : kont -> prg.
+Hypothesis Hk : forall res, K (k res).
+
+Lemma K_fail x : K (fail_of k x).
+Proof. unfold fail_of. apply Hk. Qed.
+
+Lemma K_failo o : K (failo_of k o).
+Proof. destruct o; cbn [failo_of]; try ret. apply K_fail. Qed.
+
+Lemma K_alt_fail e0 loc best : fwb e0 = true -> K (alt_fail (fail_of k) e0 s loc best).
+Proof.
+  intros Hw. unfold alt_fail. destruct best as [b|]; [|apply K_fail].
+  apply K_pre_parse; [exact Hw|apply K_fail|]. intros l. apply K_fail.
+Qed.
+
+Lemma K_and_go a d : forall es loc acc estop, forallb fwb es = true -> K (and_go k a s d es loc acc estop).
+Proof.
+  induction es as [|c rest IH]; intros loc acc estop Hw; cbn [and_go]; [apply Hk|].
+  cbn in Hw. apply andb_prop in Hw as [Hc Hr].
+  assert (Hgen : K (call c s loc d true (fun o =>
+            match o with
+            | Ok loc' r => and_go k a s d rest loc' (pr_iadd acc r) estop
+            | Div => Ret Div
+            | Err x =>
+              if estop then
+                match xk x with
+                | XSyntax => fail_of k x
+                | XParse | XFatal => fail_of k (mkx XSyntax (xloc x) (xmsg x) (xel x))
+                | XIndex => fail_of k (mkx XSyntax (Z.of_nat (length s)) (MNode (nid a) 0) (Some (nid a)))
+                | _ => fail_of k x
+                end
+              else fail_of k x
+            end))).
+  { unfold call. callc Hc.
+    - apply IH; exact Hr.
+    - destruct estop; [|apply K_fail]. destruct (xk x); apply K_fail.
+    - ret. }
+  destruct c as [ac ic tc| | | | |]; try exact Hgen.
+  destruct tc; try exact Hgen. apply IH; exact Hr.
+Qed.
+
+Lemma K_mf_go e0 loc d : fwb e0 = true -> forall es best, forallb fwb es = true -> K (mf_go k e0 s loc d es best).
+Proof.
+  intros Hw0. induction es as [|c rest IH]; intros best Hw; cbn [mf_go]; [apply K_alt_fail; assumption|].
+  cbn in Hw. apply andb_prop in Hw as [Hc Hr]. unfold call. callc Hc.
+  - apply Hk.
+  - destruct (is_fatal (xk x)); [apply K_fail|].
+    destruct (is_pe (xk x)); [apply IH; exact Hr|].
+    destruct (is_index (xk x)); [apply IH; exact Hr|apply K_fail].
+  - ret.
+Qed.
+
+Lemma K_try_parse c loc d rf kk : fwb c = true -> (forall o, K (kk o)) -> K (try_parse c s loc d rf kk).
+Proof.
+  intros Hc Hkk. unfold try_parse, call. callc Hc.
+  - apply Hkk.
+  - destruct (is_fatal (xk x) && negb rf); apply Hkk.
+  - apply Hkk.
+Qed.
+
+Lemma K_can_parse_next c loc d kk : fwb c = true -> (forall b, K (kk b)) -> K (can_parse_next (fail_of k) c s loc d kk).
+Proof.
+  intros Hc Hkk. unfold can_parse_next. apply K_try_parse; [exact Hc|].
+  intros [l r|x|]; [apply Hkk| |ret].
+  destruct (is_pe (xk x) || is_index (xk x)); [apply Hkk|apply K_fail].
+Qed.
+
+Lemma K_check_ender ne loc kk : (match ne with Some n => fwb n = true | None => True end) ->
+  (forall r, K (kk r)) -> K (check_ender ne s loc kk).
+Proof.
+  intros Hn Hkk. unfold check_ender. destruct ne as [n|]; [|apply Hkk].
+  apply K_try_parse; [exact Hn|]. intros [l r|x|]; apply Hkk.
+Qed.
+
+Lemma K_or_pass1 e0 loc : forall es matches fatals best kk,
+  forallb fwb es = true ->
+  Forall (fun p => fwb (snd p) = true) matches ->
+  (forall ms fs b, Forall (fun p : nat * expr => fwb (snd p) = true) ms -> K (kk ms fs b)) ->
+  K (or_pass1 (fail_of k) e0 es s loc matches fatals best kk).
+Proof.
+  induction es as [|c rest IH]; intros matches fatals best kk Hw Hm Hkk; cbn [or_pass1]; [apply Hkk; assumption|].
+  cbn in Hw. apply andb_prop in Hw as [Hc Hr]. apply K_try_parse; [exact Hc|].
+  intros [l r|x|].
+  - apply IH; try assumption. apply Forall_app. split; [exact Hm|]. constructor; [exact Hc|constructor].
+  - destruct (is_fatal (xk x)); [apply IH; assumption|].
+    destruct (is_pe (xk x)); [apply IH; assumption|].
+    destruct (is_index (xk x)); [apply IH; assumption|apply K_fail].
+  - ret.
+Qed.
+
+Lemma K_or_go2 tail loc : (forall b, K (tail b)) ->
+  forall ms longest best, Forall (fun p : nat * expr => fwb (snd p) = true) ms -> K (or_go2 k tail s loc ms longest best).
+Proof.
+  intros Ht. induction ms as [|[loc1 c] rest IH]; intros longest best Hm; cbn [or_go2].
+  - destruct longest as [[l r]|]; [apply Hk|apply Ht].
+  - inversion Hm as [|? ? Hc Hr]; subst. cbn in Hc.
+    destruct (match longest with Some (l, _) => Nat.leb loc1 l | None => false end).
+    + destruct longest as [[l r]|]; [apply Hk|ret].
+    + unfold call. callc Hc.
+      * destruct (Nat.leb loc1 l); [apply Hk|]. apply IH; assumption.
+      * destruct (is_pe (xk x)); [|apply K_fail]. apply IH; exact Hr.
+      * ret.
+Qed.
+
+Lemma K_rep_go foe e0 body ne d : forallb fwb (ign_of e0) = true -> fwb body = true ->
+  (match ne with Some n => fwb n = true | None => True end) ->
+  (forall o, K (foe o)) ->
+  forall fuel loc acc, K (rep_go k foe e0 body ne s d fuel loc acc).
+Proof.
+  intros Hi Hb Hn Hfoe. induction fuel as [|f IH]; intros loc acc; cbn [rep_go]; [ret|].
+  assert (Hstop : forall o, K (match o with
+            | Err x => if is_pe (xk x) || is_index (xk x) then k (inr (loc, RPR acc)) else foe o
+            | _ => Ret Div end)).
+  { intros [l r|x|]; try ret. destruct (is_pe (xk x) || is_index (xk x)); [apply Hk|apply Hfoe]. }
+  apply K_check_ender; [exact Hn|]. intros [o|]; [apply Hstop|].
+  apply K_skip_ignorables; [exact Hi| |].
+  - intros x. apply (Hstop (Err x)).
+  - intros l. unfold call. callc Hb.
+    + match goal with |- context [Nat.eqb ?a loc] => destruct (Nat.eqb a loc) end; [ret|apply IH].
+    + apply (Hstop (Err x)).
+    + ret.
+Qed.
+
+Lemma K_skipto_ign fuel ignorer : fwb ignorer = true -> forall loc kk, (forall l, K (kk l)) ->
+  K (skipto_ign (fail_of k) fuel ignorer s loc kk).
+Proof.
+  intros Hw. induction fuel as [|f IH]; intros loc kk Hkk; cbn [skipto_ign]; [apply Hkk|].
+  apply K_try_parse; [exact Hw|]. intros [l r|x|].
+  - destruct (Nat.eqb l loc); [apply Hkk|apply IH; exact Hkk].
+  - destruct (is_pbe (xk x)); [apply Hkk|apply K_fail].
+  - ret.
+Qed.
+
+Lemma K_skipto_scan e0 target ignorer failon : fwb target = true ->
+  (match ignorer with Some i => fwb i = true | None => True end) ->
+  (match failon with Some f => fwb f = true | None => True end) ->
+  forall fuel loc0 loc kk, (forall l, K (kk l)) ->
+  K (skipto_scan (fail_of k) fuel e0 target ignorer failon s loc0 loc kk).
+Proof.
+  intros Ht Hi Hf. induction fuel as [|f IH]; intros loc0 loc kk Hkk; cbn [skipto_scan]; [apply K_fail|].
+  destruct (Nat.ltb (length s) loc); [apply K_fail|].
+  assert (Hin : forall tl, K (call target s tl false false (fun o =>
+             match o with
+             | Ok _ _ => kk tl
+             | Div => Ret Div
+             | Err x => if is_pe (xk x) || is_index (xk x)
+                        then skipto_scan (fail_of k) f e0 target ignorer failon s loc0 (Datatypes.S tl) kk
+                        else fail_of k x
+             end))).
+  { intros tl. unfold call. callc Ht.
+    - apply Hkk.
+    - destruct (is_pe (xk x) || is_index (xk x)); [apply IH; exact Hkk|apply K_fail].
+    - ret. }
+  assert (Hafter : K ((match ignorer with
+         | Some ig => skipto_ign (fail_of k) (length s + 2) ig s loc
+         | None => fun k' => k' loc
+         end) (fun tl =>
+           call target s tl false false (fun o =>
+             match o with
+             | Ok _ _ => kk tl
+             | Div => Ret Div
+             | Err x => if is_pe (xk x) || is_index (xk x)
+                        then skipto_scan (fail_of k) f e0 target ignorer failon s loc0 (Datatypes.S tl) kk
+                        else fail_of k x
+             end)))).
+  { destruct ignorer as [ig|]; [apply K_skipto_ign; [exact Hi|exact Hin]|apply Hin]. }
+  destruct failon as [fo|]; [|exact Hafter].
+  apply K_can_parse_next; [exact Hf|]. intros [|]; [apply Hkk|exact Hafter].
+Qed.
+End Impl.
+
+Lemma env_fw id c : nth_error G id = Some c -> fwb c = true.
+Proof. intros H. rewrite forallb_forall in HG. apply HG. eapply nth_error_In. exact H. Qed.
+
+Lemma K_impl e pl d k : fwb e = true -> (forall res, K (k res)) -> K (impl G e s pl d k).
+Proof.
+  intros Hw Hk.
+  pose proof (K_fail k Hk) as Hfail.
+  pose proof (K_failo k Hk) as Hfailo.
+  destruct e as [a i t|a i kd es|a i kd c|a i z body ne|a i target incl ig2 fo|a i id]; cbn [fw] in Hw; rewrite ?fwl_fix in Hw.
+  - cbn [impl]. apply Hk.
+  - apply andb_prop in Hw as [Hi Hes].
+    assert (Hwe : forall kd', fwb (Nary a i kd' es) = true) by (intros kd'; cbn [fw]; rewrite ?fwl_fix, Hi, Hes; reflexivity).
+    destruct kd; cbn [impl].
+    + destruct es as [|c rest]; [apply Hk|].
+      cbn in Hes. apply andb_prop in Hes as [Hc Hr]. unfold call. callc Hc.
+      * apply K_and_go; assumption.
+      * apply (Hfailo (Err x)).
+      * apply (Hfailo Div).
+    + apply K_mf_go; try assumption. apply Hwe.
+    + assert (Hstart : forall loc, K (or_pass1 (fail_of k) (Nary a i NOr es) es s loc [] [] None
+        (fun matches fatals best =>
+           let tail := fun best0 : option exn =>
+             match pick_fatal fatals with
+             | Some fx => fail_of k fx
+             | None => alt_fail (fail_of k) (Nary a i NOr es) s loc best0
+             end in
+           match matches with
+           | [] => tail best
+           | _ :: _ =>
+             let sorted := sort_desc (fun p => Z.of_nat (fst p)) matches in
+             if negb d
+             then match sorted with
+                  | (_, c) :: _ => call c s loc false true (fun o => match o with Ok l r => k (inr (l, RPR r)) | _ => failo_of k o end)
+                  | [] => tail best
+                  end
+             else or_go2 k tail s loc sorted None best
+           end))).
+      { intros loc. apply K_or_pass1; try assumption; try constructor.
+        intros ms fs b Hms. cbv zeta.
+        assert (Htail : forall b0, K (match pick_fatal fs with
+                     | Some fx => fail_of k fx
+                     | None => alt_fail (fail_of k) (Nary a i NOr es) s loc b0
+                     end)).
+        { intros b0. destruct (pick_fatal fs) as [fx|]; [apply Hfail|]. apply K_alt_fail; [assumption|apply Hwe]. }
+        destruct ms as [|m ms]; [apply Htail|].
+        pose proof (Forall_sort_desc' _ (fun p : nat * expr => Z.of_nat (fst p)) _ Hms) as Hsorted.
+        destruct (negb d).
+        - destruct (sort_desc _ (m :: ms)) as [|[l0 c0] rest]; [apply Htail|].
+          inversion Hsorted as [|? ? Hc0 ?]; subst. cbn in Hc0. unfold call. callc Hc0.
+          + apply Hk.
+          + apply (Hfailo (Err x)).
+          + apply (Hfailo Div).
+        - apply K_or_go2; assumption. }
+      destruct (forallb (fun c => callpre (attrs_of c)) es); [|apply Hstart].
+      apply K_pre_parse; [apply Hwe|exact Hfail|exact Hstart].
+    + apply Hfail.
+  - apply andb_prop in Hw as [Hi Hc].
+    assert (Hpass : forall loc, K (call c s loc d false (fun o =>
+              match o with
+              | Ok l r => k (inr (l, RPR r))
+              | Div => Ret Div
+              | Err x => fail_of k (enh_rewrite a false loc x)
+              end))).
+    { intros loc. unfold call. callc Hc; [apply Hk|apply Hfail|ret]. }
+    destruct kd; cbn [impl]; try apply Hpass.
+    + unfold call. callc Hc; [apply Hk| |ret].
+      destruct (is_pe (xk x) || is_index (xk x)); [|apply Hfail].
+      destruct default; [destruct (rsname (attrs_of c)) as [[|? ?]|]|]; apply Hk.
+    + apply K_can_parse_next; [exact Hk|exact Hc|]. intros [|]; [apply Hfail|apply Hk].
+    + unfold call. callc Hc; [apply Hk|apply (Hfailo (Err x))|apply (Hfailo Div)].
+    + apply K_try_parse; [exact Hc|]. intros [l r|x|]; [apply Hk|apply (Hfailo (Err x))|apply (Hfailo Div)].
+    + unfold call. callc Hc; [|apply (Hfailo (Err x))|apply (Hfailo Div)].
+      cbn [attrs_of]. destruct (rsname a) as [[|? ?]|]; apply Hk.
+    + destruct (negb (Nat.eqb pl 0)); [apply Hfail|apply Hpass].
+    + destruct (negb (Nat.eqb (col_at s pl) 1)); [apply Hfail|apply Hpass].
+    + destruct exact; [|apply Hfail].
+      destruct (Nat.ltb pl retreat); [apply Hfail|].
+      unfold call. callc Hc; [apply Hk|apply (Hfailo (Err x))|apply (Hfailo Div)].
+  - apply andb_prop in Hw as [Hw Hne0]. apply andb_prop in Hw as [Hi Hb]. cbn [impl].
+    assert (Hne : match ne with Some n => fwb n = true | None => True end) by (destruct ne; [assumption|exact I]).
+    assert (Hfoe : forall o, K (match o with
+              | Err x => if z && (is_pe (xk x) || is_index (xk x))
+                         then k (inr (pl, RPR (pr_init (RList []) (rsname a) true true)))
+                         else fail_of k x
+              | _ => Ret Div end)).
+    { intros [l r|x|]; try ret. destruct (z && _); [apply Hk|apply Hfail]. }
+    apply K_check_ender; [exact Hne|]. intros [o|]; [apply Hfoe|].
+    unfold call. callc Hb.
+    + apply K_rep_go; try assumption.
+    + apply (Hfoe (Err x)).
+    + ret.
+  - apply andb_prop in Hw as [Hw Hfo]. apply andb_prop in Hw as [Hw Hig]. apply andb_prop in Hw as [Hi Ht]. cbn [impl].
+    apply K_skipto_scan; try assumption.
+    + destruct ig2; [exact I|]. cbn [fw]. rewrite ?fwl_fix. exact Hig.
+    + destruct fo; [assumption|exact I].
+    + intros tl. destruct incl; [|apply Hk].
+      unfold call. callc Ht; [apply Hk|apply (Hfailo (Err x))|apply (Hfailo Div)].
+  - cbn [impl]. destruct id as [id|]; [|apply Hfail].
+    destruct (nth_error G id) as [c|] eqn:E; [|apply Hfail].
+    unfold call. callc (env_fw id c E); [apply Hk|apply Hfail|ret].
+Qed.
+
+Theorem K_step a : Cs a -> K (step G a).
+Proof.
+  intros [Hs Hw]. unfold step. rewrite Hs.
+  assert (Hin : forall pl, K (impl G (a_e a) s pl (a_do a) (step_k (a_e a) s (a_do a) pl))).
+  { intros pl. apply K_impl; [exact Hw|]. intros res. apply K_step_k. }
+  destruct (a_pre a && callpre (attrs_of (a_e a))); [|apply Hin].
+  apply K_pre_parse; [exact Hw|apply K_escape|exact Hin].
+Qed.
+End Calls.
+
+(* ------------------------------------------------------------------------------------------- *)
+(* Part D: splitting the continuation off `pre_parse`                                           *)
+(* ------------------------------------------------------------------------------------------- *)
+Section PreSplit.
+Variable rec : args -> option outcome.
+Variable Phi : option outcome -> option outcome -> Prop.
+Hypothesis Phi_none : Phi None None.
+Hypothesis Phi_div : Phi (Some Div) (Some Div).
+Hypothesis Phi_err : forall x, Phi (Some (Err x)) (Some (Err x)).
+
+Lemma D_skip_inner fuel : forall ig s loc found (k1 k2 : nat -> bool -> prg),
+  (forall l b, Phi (run rec (k1 l b)) (run rec (k2 l b))) ->
+  Phi (run rec (skip_ign_inner escape fuel ig s loc found k1)) (run rec (skip_ign_inner escape fuel ig s loc found k2)).
+Proof.
+  induction fuel as [|f IH]; intros ig s loc found k1 k2 Hk; cbn [skip_ign_inner]; [exact Phi_div|].
+  unfold call. cbn [run]. destruct (rec _) as [[l r|x|]|].
+  - apply IH. exact Hk.
+  - destruct (is_pe (xk x)); [apply Hk|apply Phi_err].
+  - exact Phi_div.
+  - exact Phi_none.
+Qed.
+
+Lemma D_skip_pass fuel : forall igs s loc found (k1 k2 : nat -> bool -> prg),
+  (forall l b, Phi (run rec (k1 l b)) (run rec (k2 l b))) ->
+  Phi (run rec (skip_ign_pass escape fuel igs s loc found k1)) (run rec (skip_ign_pass escape fuel igs s loc found k2)).
+Proof.
+  induction igs as [|ig igs IH]; intros s loc found k1 k2 Hk; cbn [skip_ign_pass]; [apply Hk|].
+  apply D_skip_inner. intros l b. apply IH. exact Hk.
+Qed.
+
+Lemma D_skip_ignorables : forall rounds igs s loc (k1 k2 : nat -> prg),
+  (forall l, Phi (run rec (k1 l)) (run rec (k2 l))) ->
+  Phi (run rec (skip_ignorables escape rounds igs s loc k1)) (run rec (skip_ignorables escape rounds igs s loc k2)).
+Proof.
+  induction rounds as [|r IH]; intros igs s loc k1 k2 Hk; destruct igs as [|ig igs]; cbn [skip_ignorables]; try apply Hk;
+    [exact Phi_div|].
+  apply D_skip_pass. intros l b. destruct (negb b); [apply Hk|]. destruct (Nat.eqb l loc); [apply Hk|]. apply IH. exact Hk.
+Qed.
+
+Lemma D_pre_parse e s loc (k1 k2 : nat -> prg) :
+  (forall l, Phi (run rec (k1 l)) (run rec (k2 l))) ->
+  Phi (run rec (pre_parse escape e s loc k1)) (run rec (pre_parse escape e s loc k2)).
+Proof.
+  intros Hk. unfold pre_parse.
+  destruct e as [a i t| | | | |]; try (apply D_skip_ignorables; intros; apply Hk).
+  destruct t; try (apply D_skip_ignorables; intros; apply Hk).
+  - destruct loc; [apply Hk|]. destruct orig_has_nl; apply Hk.
+  - destruct (Nat.eqb (col_at s loc) c); [apply Hk|]. apply D_skip_ignorables; intros; apply Hk.
+Qed.
+End PreSplit.
+
+Lemma pre_split (rec : args -> option outcome) e s loc (k : nat -> prg) :
+  match run rec (pre_parse escape e s loc (fun l => Ret (Ok l pr_empty))) with
+  | None => run rec (pre_parse escape e s loc k) = None
+  | Some (Ok l _) => run rec (pre_parse escape e s loc k) = run rec (k l)
+  | Some o => run rec (pre_parse escape e s loc k) = Some o
+  end.
+Proof.
+  apply (D_pre_parse rec (fun r1 r2 => match r1 with
+                                       | None => r2 = None
+                                       | Some (Ok l _) => r2 = run rec (k l)
+                                       | Some o => r2 = Some o
+                                       end)); try reflexivity.
+Qed.
+
+(* ------------------------------------------------------------------------------------------- *)
+(* Part E: the simulation                                                                       *)
+(* ------------------------------------------------------------------------------------------- *)
+Definition fid_attrs (fid : nat) : attrs :=
+  {| nid := fid; rsname := None; modalr := true; aslist := false; skipws := false; white := [];
+     callpre := true; mayidx := false; custom := false; hasmsg := true; acts := []; calltry := false; slen := 0 |}.
+
+(* a Forward's exception rewriting only looks at the identity of the Forward *)
+Lemma enh_fid a loc x : enh_rewrite a true loc x = enh_rewrite (fid_attrs (nid a)) true loc x.
+Proof. unfold enh_rewrite. destruct (xk x); reflexivity. Qed.
+
+(* what Forward.parseImpl (left recursion disabled) makes of its body's answer *)
+Definition fwd_ans (fid loc : nat) (ob : outcome) : outcome :=
+  match ob with Err x => Err (enh_rewrite (fid_attrs fid) true loc x) | o => o end.
+
+Section Sim.
+Variable G : env.
+Variable tbl : nat -> option nat.
+Variable s : str.
+Hypothesis HG : forallb (fw tbl) G = true.
+
+Notation fwb := (fw tbl).
+Notation pparse := (parse (step G)).
+Notation Cs := (Cs tbl s).
+
+Lemma pmono f a o f' : pparse f a = Some o -> f <= f' -> pparse f' a = Some o.
+Proof. intros H Hle. exact (parse_mono args outcome (step G) f a o H f' Hle). Qed.
+
+Lemma pdet f1 f2 a o1 o2 : pparse f1 a = Some o1 -> pparse f2 a = Some o2 -> o1 = o2.
+Proof. exact (parse_det args outcome (step G) f1 f2 a o1 o2). Qed.
+
+Lemma prun_mono f f' p o : run (pparse f) p = Some o -> f <= f' -> run (pparse f') p = Some o.
+Proof.
+  intros H Hle. eapply (run_mono args outcome); [|exact H]. intros b ob Hb. eapply pmono; [exact Hb|exact Hle].
+Qed.
+
+(* the invariant: every entry that is not a seed is the plain parser's answer for that Forward, location and do_actions *)
+Definition entry_ok (k : mkey) (v : mval) : Prop :=
+  match k with
+  | (loc, fid, d) =>
+    exists id body f ob, tbl fid = Some id /\ nth_error G id = Some body /\
+      pparse f (mkargs body s loc d false) = Some ob /\
+      match v with
+      | (pl, MOk r) => exists n, pl = Z.of_nat n /\ fwd_ans fid loc ob = Ok n r
+      | (pl, MExc x) => fwd_ans fid loc ob = Err x
+      end
+  end.
+Definition Pent (k : mkey) (v : mval) : Prop := is_seed k v = false -> entry_ok k v.
+Definition memo_ok (m : memo) : Prop := mall Pent m.
+
+Definition ans_ok (a : attrs) (body : expr) (loc : nat) (d : bool) (o : outcome) : Prop :=
+  exists f ob, pparse f (mkargs body s loc d false) = Some ob /\ o = fwd_ans (nid a) loc ob.
+
+Section Rec.
+Variable rect : memo -> args -> res_t.
+Hypothesis Hrec : forall m a o m', Cs a -> memo_ok m -> rect m a = Some (o, m', fl0) ->
+  (exists f, pparse f a = Some o) /\ memo_ok m'.
+
+Lemma runm_sim p : calls Cs p -> forall m o m', memo_ok m -> runm_t rect m p = Some (o, m', fl0) ->
+  (exists f, run (pparse f) p = Some o) /\ memo_ok m'.
+Proof.
+  induction p as [o0|a k IH]; intros HC m o m' Hm H; cbn [runm_t] in H.
+  - injection H as <- <-. split; [exists 0; reflexivity|exact Hm].
+  - inversion HC as [|a0 k0 Ha Hk]; subst.
+    destruct (rect m a) as [[[o1 m1] f1]|] eqn:E; [|discriminate].
+    apply with_fl_0 in H as [-> H].
+    destruct (Hrec _ _ _ _ Ha Hm E) as [[fa Hfa] Hm1].
+    destruct (IH o1 (Hk o1) m1 o m' Hm1 H) as [[fb Hfb] Hm'].
+    split; [|exact Hm']. exists (Nat.max fa fb). cbn [run].
+    rewrite (pmono fa a o1 (Nat.max fa fb) Hfa) by lia.
+    eapply prun_mono; [exact Hfb|lia].
+Qed.
+
+Lemma super_sim a body loc d m o m' : fwb body = true -> memo_ok m ->
+  super_impl_t rect a body s loc d m = Some (o, m', fl0) -> ans_ok a body loc d o /\ memo_ok m'.
+Proof.
+  intros Hb Hm H. unfold super_impl_t in H.
+  destruct (rect m (mkargs body s loc d false)) as [[[ob m1] f1]|] eqn:E; [|discriminate].
+  assert (Cs (mkargs body s loc d false)) as HC by (split; [reflexivity|exact Hb]).
+  assert (f1 = fl0 /\ m1 = m' /\ o = fwd_ans (nid a) loc ob) as (-> & -> & ->).
+  { destruct ob as [l r|x|]; injection H as <- <- <-; repeat split. }
+  destruct (Hrec _ _ _ _ HC Hm E) as [[f Hf] Hm1].
+  split; [|exact Hm1]. exists f, ob. split; [exact Hf|reflexivity].
+Qed.
+
+Section Fwd.
+Variable a : attrs.
+Variable id : nat.
+Variable body : expr.
+Hypothesis Htbl : tbl (nid a) = Some id.
+Hypothesis Hnth : nth_error G id = Some body.
+
+Lemma body_fw : fwb body = true.
+Proof. exact (env_fw G tbl HG id body Hnth). Qed.
+
+Lemma entry_ok_here loc d v : entry_ok (loc, nid a, d) v ->
+  exists f ob, pparse f (mkargs body s loc d false) = Some ob /\
+    match v with
+    | (pl, MOk r) => exists n, pl = Z.of_nat n /\ fwd_ans (nid a) loc ob = Ok n r
+    | (pl, MExc x) => fwd_ans (nid a) loc ob = Err x
+    end.
+Proof.
+  intros (id' & body' & f & ob & H1 & H2 & H3 & H4).
+  rewrite Htbl in H1. injection H1 as <-. rewrite Hnth in H2. injection H2 as <-.
+  exists f, ob. split; assumption.
+Qed.
+
+Lemma Pent_ok loc d f l r : pparse f (mkargs body s loc d false) = Some (Ok l r) -> Pent (loc, nid a, d) (Z.of_nat l, MOk r).
+Proof.
+  intros H _. exists id, body, f, (Ok l r). repeat split; try assumption. exists l. split; reflexivity.
+Qed.
+
+Lemma Pent_seed loc d : Pent (loc, nid a, d) ((Z.of_nat loc - 1)%Z, MExc (mkx XParse (Z.of_nat loc) MFwdNoBase (Some (nid a)))).
+Proof. intros H. rewrite is_seed_seed in H. discriminate. Qed.
+
+(* a later iteration of the growth loop: the previous peek result is the plain parser's *)
+Lemma loop2_sim loc d f f0 l0 r0 m o m' :
+  pparse f0 (mkargs body s loc false false) = Some (Ok l0 r0) ->
+  memo_ok m ->
+  lr_loop_t rect (S f) a body s loc d (Z.of_nat l0) (MOk r0) m = Some (o, m', fl0) ->
+  ans_ok a body loc d o /\ memo_ok m'.
+Proof.
+  intros Hp0 Hm H. cbn [lr_loop_t] in H.
+  destruct (super_impl_t rect a body s loc false m) as [[[o1 m1] f1]|] eqn:E1; [|discriminate].
+  apply with_fl_0 in H as [-> H].
+  destruct (super_sim _ _ _ _ _ _ _ body_fw Hm E1) as [(f1' & ob1 & Hp1 & ->) Hm1].
+  pose proof (pdet _ _ _ _ _ Hp1 Hp0) as ->. cbn [fwd_ans] in H.
+  rewrite Z.leb_refl in H. destruct d.
+  - destruct (memo_get m1 (loc, nid a, true)) as [[[pl pr] m2]|] eqn:Eg; [|discriminate].
+    destruct (is_seed (loc, nid a, true) (pl, pr)) eqn:Es; [destruct pr; discriminate|].
+    destruct (mval_same (pl, pr) (Z.of_nat l0, MOk r0)) eqn:Em; [|destruct pr; discriminate].
+    apply mval_same_eq in Em. injection Em as -> ->. cbn [negb andb] in H.
+    injection H as <- <-. rewrite Nat2Z.id.
+    destruct (mall_get Pent _ _ _ _ Eg Hm1) as [Hp Hm2].
+    destruct (entry_ok_here _ _ _ (Hp Es)) as (fa & oba & Hpa & n & Hn & Ha).
+    apply Nat2Z.inj in Hn. subst n.
+    split.
+    + exists fa, oba. split; [exact Hpa|symmetry; exact Ha].
+    + apply mall_del. apply mall_del. apply mall_set; [exact Hm2|]. eapply Pent_ok. exact Hp0.
+  - cbn [is_seed] in H. injection H as <- <-. rewrite Nat2Z.id. split.
+    + exists f0, (Ok l0 r0). split; [exact Hp0|reflexivity].
+    + apply mall_del. exact Hm1.
+Qed.
+
+(* the F-03e observation *)
+Lemma pe_fl_sim loc (d : bool) m1 ob1 f1 :
+  memo_ok m1 ->
+  pparse f1 (mkargs body s loc false false) = Some ob1 ->
+  (if d then peek_error_flag rect a body s loc m1 (fwd_ans (nid a) loc ob1) else fl0) = fl0 ->
+  ans_ok a body loc d (fwd_ans (nid a) loc ob1).
+Proof.
+  intros Hm1 Hp1 H. destruct d; [|exists f1, ob1; split; [exact Hp1|reflexivity]].
+  unfold peek_error_flag in H.
+  destruct (super_impl_t rect a body s loc true m1) as [[[og mg] fg]|] eqn:Eg; [|discriminate].
+  destruct (fl_clean fg && same_fail (fwd_ans (nid a) loc ob1) og) eqn:Ec; [|discriminate].
+  apply andb_prop in Ec as [Ec1 Ec2]. apply fl_clean_0 in Ec1. subst fg. apply same_fail_eq in Ec2. rewrite Ec2.
+  exact (proj1 (super_sim _ _ _ _ _ _ _ body_fw Hm1 Eg)).
+Qed.
+
+(* the first iteration: previous result = the seed *)
+Lemma loop1_sim loc d f m o m' :
+  memo_ok m ->
+  lr_loop_t rect (S (S f)) a body s loc d (Z.of_nat loc - 1) (MExc (mkx XParse (Z.of_nat loc) MFwdNoBase (Some (nid a)))) m
+    = Some (o, m', fl0) ->
+  ans_ok a body loc d o /\ memo_ok m'.
+Proof.
+  intros Hm H. remember (S f) as fu eqn:Efu. cbn [lr_loop_t] in H.
+  destruct (super_impl_t rect a body s loc false m) as [[[o1 m1] f1]|] eqn:E1; [|discriminate].
+  apply with_fl_0 in H as [-> H].
+  destruct (super_sim _ _ _ _ _ _ _ body_fw Hm E1) as [(f1' & ob1 & Hp1 & Ho1) Hm1].
+  assert (Hfail : forall x1,
+    Some (x1, m1, if d then peek_error_flag rect a body s loc m1 o1 else fl0) = Some (o, m', fl0) -> x1 = o1 ->
+    ans_ok a body loc d o /\ memo_ok m').
+  { intros x1 Hx ->. injection Hx as <- <- Hx. split; [|exact Hm1]. subst o1. eapply pe_fl_sim; eassumption. }
+  destruct ob1 as [l r|x|]; cbn [fwd_ans] in Ho1; subst o1.
+  - destruct (Z.of_nat l <=? Z.of_nat loc - 1)%Z.
+    + destruct d.
+      * destruct (memo_get m1 (loc, nid a, true)) as [[[pl pr] m2]|]; [|discriminate].
+        destruct (is_seed (loc, nid a, true) (pl, pr)); destruct pr; discriminate.
+      * rewrite is_seed_seed in H. discriminate.
+    + subst fu. destruct d.
+      * destruct (super_impl_t rect a body s loc true m1) as [[[o2 m2] f2]|] eqn:E2; [|discriminate].
+        destruct o2 as [l' r'|x'|].
+        -- apply with_fl_0 in H as [-> H].
+           destruct (super_sim _ _ _ _ _ _ _ body_fw Hm1 E2) as [(f2' & ob2 & Hp2 & Ho2) Hm2].
+           destruct ob2 as [l2 r2|x2|]; cbn [fwd_ans] in Ho2; try discriminate. injection Ho2 as <- <-.
+           eapply loop2_sim; [exact Hp1| |exact H].
+           apply mall_set; [apply mall_set; [exact Hm2|]|]; eapply Pent_ok; eassumption.
+        -- destruct (is_pe (xk x')).
+           ++ exfalso. assert (fl_or f2 (Build_flags false false true false false false) = fl0) as Hf by congruence.
+              apply fl_or_0 in Hf as [_ Hf]. discriminate.
+           ++ injection H as <- <- ->. exact (super_sim _ _ _ _ _ _ _ body_fw Hm1 E2).
+        -- injection H as <- <- ->. exact (super_sim _ _ _ _ _ _ _ body_fw Hm1 E2).
+      * eapply loop2_sim; [exact Hp1| |exact H]. apply mall_set; [exact Hm1|]. eapply Pent_ok. exact Hp1.
+  - destruct (is_pe (xk (enh_rewrite (fid_attrs (nid a)) true loc x))); eapply Hfail; try exact H; reflexivity.
+  - eapply Hfail; [exact H|reflexivity].
+Qed.
+
+Lemma forward_sim loc d m o m' : memo_ok m ->
+  lr_forward_t rect a body s loc d m = Some (o, m', fl0) -> ans_ok a body loc d o /\ memo_ok m'.
+Proof.
+  intros Hm H. unfold lr_forward_t in H.
+  destruct (memo_get m (loc, nid a, d)) as [[[pl [r|x]] m1]|] eqn:Eg.
+  - injection H as <- <-. destruct (mall_get Pent _ _ _ _ Eg Hm) as [Hp Hm1].
+    destruct (entry_ok_here _ _ _ (Hp eq_refl)) as (fa & oba & Hpa & n & -> & Ha).
+    rewrite Nat2Z.id. split; [|exact Hm1]. exists fa, oba. split; [exact Hpa|symmetry; exact Ha].
+  - destruct (is_seed (loc, nid a, d) (pl, MExc x)) eqn:Es; [discriminate|].
+    injection H as <- <-. destruct (mall_get Pent _ _ _ _ Eg Hm) as [Hp Hm1].
+    destruct (entry_ok_here _ _ _ (Hp Es)) as (fa & oba & Hpa & Ha).
+    split; [|exact Hm1]. exists fa, oba. split; [exact Hpa|symmetry; exact Ha].
+  - replace (length s + 3) with (S (S (length s + 1))) in H by lia.
+    eapply loop1_sim; [|exact H].
+    destruct d; [apply mall_set; [|apply Pent_seed]|]; (apply mall_set; [exact Hm|apply Pent_seed]).
+Qed.
+End Fwd.
+End Rec.
+
+Lemma step_unfold ar : step G ar =
+  if a_pre ar && callpre (attrs_of (a_e ar))
+  then pre_parse escape (a_e ar) (a_s ar) (a_loc ar)
+         (fun pl => impl G (a_e ar) (a_s ar) pl (a_do ar) (step_k (a_e ar) (a_s ar) (a_do ar) pl))
+  else impl G (a_e ar) (a_s ar) (a_loc ar) (a_do ar) (step_k (a_e ar) (a_s ar) (a_do ar) (a_loc ar)).
+Proof. reflexivity. Qed.
+
+(* the handler: by induction on the fuel *)
+Theorem parse_lr_sim : forall fuel m ar o m', Cs ar -> memo_ok m ->
+  parse_lr_t G fuel m ar = Some (o, m', fl0) -> (exists f, pparse f ar = Some o) /\ memo_ok m'.
+Proof.
+  induction fuel as [|fu IH]; intros m ar o m' HC Hm H; [discriminate|].
+  cbn [parse_lr_t] in H.
+  assert (Hgen : runm_t (parse_lr_t G fu) m (step G ar) = Some (o, m', fl0) -> (exists f, pparse f ar = Some o) /\ memo_ok m').
+  { intros Hr. destruct (runm_sim _ IH _ (K_step G tbl s HG ar HC) _ _ _ Hm Hr) as [[f Hf] Hm'].
+    split; [exists (S f); exact Hf|exact Hm']. }
+  destruct ar as [e s0 loc d p]. destruct HC as [Hs Hw]. cbn [a_e a_s a_loc a_do a_pre] in *. subst s0.
+  destruct e as [a i t|a i kd es|a i kd c|a i z body0 ne|a i target incl ig2 fo|a i [id|]]; try (apply Hgen; exact H).
+  destruct (nth_error G id) as [body|] eqn:En; [|apply Hgen; exact H].
+  clear Hgen.
+  assert (Htbl : tbl (nid a) = Some id).
+  { pose proof Hw as Hw'. cbn [fw] in Hw'. apply andb_prop in Hw' as [_ Hw'].
+    destruct (tbl (nid a)) as [id'|]; [|discriminate]. apply Nat.eqb_eq in Hw'. subst. reflexivity. }
+  remember (Fwd a i (Some id)) as e eqn:Ee.
+  remember (if p && callpre a then pre_parse escape e s loc (fun l => Ret (Ok l pr_empty)) else Ret (Ok loc pr_empty)) as pre eqn:Epre0.
+  assert (HCpre : calls Cs pre).
+  { subst pre. destruct (p && callpre a); [|apply C_ret].
+    apply (K_pre_parse tbl s); [exact Hw|intros; apply C_ret|intros; apply C_ret]. }
+  (* the plain side: the same pre-parse, then the body, then step_k *)
+  assert (Hplain : forall F,
+    match run (pparse F) pre with
+    | None => True
+    | Some (Ok l _) => run (pparse F) (step G (mkargs e s loc d p)) =
+                       match pparse F (mkargs body s l d false) with
+                       | None => None
+                       | Some ob => run (pparse F)
+                           match ob with
+                           | Ok l' r => step_k e s d l (inr (l', RPR r))
+                           | Div => Ret Div
+                           | Err x => fail_of (step_k e s d l) (enh_rewrite a true l x)
+                           end
+                       end
+    | Some o => run (pparse F) (step G (mkargs e s loc d p)) = Some o
+    end).
+  { intros F.
+    assert (HK : forall l, run (pparse F) (impl G e s l d (step_k e s d l)) =
+                match pparse F (mkargs body s l d false) with
+                | None => None
+                | Some ob => run (pparse F)
+                    match ob with
+                    | Ok l' r => step_k e s d l (inr (l', RPR r))
+                    | Div => Ret Div
+                    | Err x => fail_of (step_k e s d l) (enh_rewrite a true l x)
+                    end
+                end).
+    { intros l. subst e. cbn [impl]. rewrite En. unfold call. cbn [run attrs_of].
+      destruct (pparse F (mkargs body s l d false)) as [[l' r|x|]|]; reflexivity. }
+    rewrite (step_unfold (mkargs e s loc d p)). cbn [a_e a_s a_loc a_do a_pre mkargs]. subst pre.
+    replace (attrs_of e) with a by (subst e; reflexivity).
+    destruct (p && callpre a).
+    - pose proof (pre_split (pparse F) e s loc (fun l => impl G e s l d (step_k e s d l))) as Hs.
+      destruct (run (pparse F) (pre_parse escape e s loc (fun l => Ret (Ok l pr_empty)))) as [[l r|x|]|]; try exact Hs; [|exact I].
+      rewrite Hs. apply HK.
+    - cbn [run]. apply HK. }
+  destruct (runm_t (parse_lr_t G fu) m pre) as [[[opre m1] f1]|] eqn:Epre; [|discriminate].
+  destruct opre as [pre_loc rp|xp|].
+  - apply with_fl_0 in H as [-> H].
+    destruct (runm_sim _ IH _ HCpre _ _ _ Hm Epre) as [[fp Hfp] Hm1].
+    destruct (lr_forward_t (parse_lr_t G fu) a body s pre_loc d m1) as [[[ofw m2] f2]|] eqn:Ef; [|discriminate].
+    assert (Hstepk : forall res o m', runm_t (parse_lr_t G fu) m2 (step_k e s d pre_loc res) = Some (o, m', fl0) -> memo_ok m2 ->
+              (exists f, run (pparse f) (step_k e s d pre_loc res) = Some o) /\ memo_ok m').
+    { intros res o' m'' Hr Hm2. exact (runm_sim _ IH _ (K_step_k tbl s e d pre_loc res) _ _ _ Hm2 Hr). }
+    assert (Hfin : forall fb fk ob p', pparse fb (mkargs body s pre_loc d false) = Some ob ->
+              run (pparse fk) p' = Some o ->
+              p' = match ob with
+                   | Ok l' r => step_k e s d pre_loc (inr (l', RPR r))
+                   | Div => Ret Div
+                   | Err x => fail_of (step_k e s d pre_loc) (enh_rewrite a true pre_loc x)
+                   end ->
+              exists f, pparse f (mkargs e s loc d p) = Some o).
+    { intros fb fk ob p' Hb Hk Hp'. exists (S (Nat.max fp (Nat.max fb fk))). cbn [parse].
+      specialize (Hplain (Nat.max fp (Nat.max fb fk))).
+      rewrite (prun_mono fp _ pre _ Hfp) in Hplain by lia. rewrite Hplain.
+      rewrite (pmono fb _ _ _ Hb) by lia. rewrite <- Hp'. eapply prun_mono; [exact Hk|lia]. }
+    destruct ofw as [l r|x|].
+    + apply with_fl_0 in H as [-> H].
+      destruct (forward_sim _ IH a id body Htbl En _ _ _ _ _ Hm1 Ef) as [(fb & ob & Hb & Ho) Hm2].
+      destruct (Hstepk _ _ _ H Hm2) as [[fk Hk] Hm']. split; [|exact Hm'].
+      destruct ob as [l' r'|x'|]; cbn [fwd_ans] in Ho; try discriminate. injection Ho as <- <-.
+      eapply Hfin; [exact Hb|exact Hk|reflexivity].
+    + apply with_fl_0 in H as [-> H].
+      destruct (forward_sim _ IH a id body Htbl En _ _ _ _ _ Hm1 Ef) as [(fb & ob & Hb & Ho) Hm2].
+      destruct (Hstepk _ _ _ H Hm2) as [[fk Hk] Hm']. split; [|exact Hm'].
+      destruct ob as [l' r'|x'|]; cbn [fwd_ans] in Ho; try discriminate. injection Ho as ->.
+      eapply Hfin; [exact Hb|exact Hk|reflexivity].
+    + injection H as <- <- ->.
+      destruct (forward_sim _ IH a id body Htbl En _ _ _ _ _ Hm1 Ef) as [(fb & ob & Hb & Ho) Hm2].
+      split; [|exact Hm2].
+      destruct ob as [l' r'|x'|]; cbn [fwd_ans] in Ho; try discriminate.
+      apply (Hfin fb 0 Div (Ret Div)); [exact Hb|reflexivity|reflexivity].
+  - injection H as <- <- ->.
+    destruct (runm_sim _ IH _ HCpre _ _ _ Hm Epre) as [[fp Hfp] Hm1]. split; [|exact Hm1].
+    exists (S fp). cbn [parse]. specialize (Hplain fp). rewrite Hfp in Hplain. exact Hplain.
+  - injection H as <- <- ->.
+    destruct (runm_sim _ IH _ HCpre _ _ _ Hm Epre) as [[fp Hfp] Hm1]. split; [|exact Hm1].
+    exists (S fp). cbn [parse]. specialize (Hplain fp). rewrite Hfp in Hplain. exact Hplain.
+Qed.
+
+(* ------------------------------------------------------------------------------------------- *)
+(* Part F: entry points                                                                         *)
+(* ------------------------------------------------------------------------------------------- *)
+Inductive dcalls (C : args -> Prop) {R} : dprog R -> Prop :=
+| DC_ret r : dcalls C (DRet r)
+| DC_call a k : C a -> (forall o, dcalls C (k o)) -> dcalls C (DCall a k).
+
+Lemma lift_calls (C : args -> Prop) {R} p : calls C p -> forall (k : outcome -> dprog R),
+  (forall o, dcalls C (k o)) -> dcalls C (lift p k).
+Proof.
+  induction p as [o|a k' IH]; intros HC k Hk; cbn [lift]; [apply Hk|].
+  inversion HC as [|a0 k0 Ha Hk']; subst. apply DC_call; [exact Ha|]. intros o. apply IH; [apply Hk'|exact Hk].
+Qed.
+
+Lemma drunm_sim {R} (p : dprog R) fuel : dcalls Cs p -> forall m r m', memo_ok m ->
+  drunm_t (parse_lr_t G fuel) m p = Some (r, m', fl0) ->
+  (exists f, drun (pparse f) p = Some r) /\ memo_ok m'.
+Proof.
+  induction p as [r0|a k IH]; intros HC m r m' Hm H; cbn [drunm_t] in H.
+  - injection H as <- <-. split; [exists 0; reflexivity|exact Hm].
+  - inversion HC as [|a0 k0 Ha Hk]; subst.
+    destruct (parse_lr_t G fuel m a) as [[[o1 m1] f1]|] eqn:E; [|discriminate].
+    destruct (drunm_t (parse_lr_t G fuel) m1 (k o1)) as [[[r1 m2] g]|] eqn:E2; [|discriminate].
+    assert (fl_or f1 g = fl0) as Hf by congruence. assert (r1 = r) as -> by congruence. assert (m2 = m') as -> by congruence.
+    apply fl_or_0 in Hf as [-> ->].
+    destruct (parse_lr_sim _ _ _ _ _ Ha Hm E) as [[fa Hfa] Hm1].
+    destruct (IH o1 (Hk o1) m1 r m' Hm1 E2) as [[fb Hfb] Hm'].
+    split; [|exact Hm']. exists (Nat.max fa fb). cbn [drun].
+    rewrite (pmono fa a o1 (Nat.max fa fb) Hfa) by lia.
+    eapply drun_mono; [|exact Hfb]. intros b ob Hb. eapply pmono; [exact Hb|lia].
+Qed.
+End Sim.
+
+Lemma fw_se_expr tbl dw : fw tbl (se_expr dw) = true.
+Proof. reflexivity. Qed.
+
+Lemma fw_preparser tbl root : fw tbl root = true -> fw tbl (preparser root) = true.
+Proof. intros H. unfold preparser. cbn [fw]. rewrite fwl_fix. apply fw_ign. exact H. Qed.
+
+Lemma parse_string_calls tbl dw root (kt : bool) input pa : fw tbl root = true ->
+  dcalls (Cs tbl (if kt then input else expandtabs input)) (parse_string dw root kt input pa).
+Proof.
+  intros Hw. unfold parse_string. set (s := if kt then input else expandtabs input).
+  apply DC_call; [split; [reflexivity|exact Hw]|]. intros [loc r|x|]; try apply DC_ret.
+  destruct pa; [|apply DC_ret].
+  apply lift_calls; [apply K_pre_parse; [exact Hw|intros; apply C_ret|intros; apply C_ret]|].
+  intros [loc' r'|x|]; try apply DC_ret.
+  apply DC_call; [split; [reflexivity|apply fw_se_expr]|]. intros [l2 r2|x|]; apply DC_ret.
+Qed.
+
+Lemma scan_loop_calls tbl root s always_skip overlap maxm : fw tbl root = true ->
+  forall fuel loc matches acc, dcalls (Cs tbl s) (scan_loop fuel root s always_skip overlap maxm loc matches acc).
+Proof.
+  intros Hw.
+  assert (Hpp : fw tbl (if always_skip then preparser root else root) = true)
+    by (destruct always_skip; [apply fw_preparser|]; exact Hw).
+  induction fuel as [|f IH]; intros loc matches acc; cbn [scan_loop]; [apply DC_ret|].
+  destruct (Nat.leb loc (length s) && _); [|apply DC_ret].
+  apply lift_calls; [apply K_pre_parse; [exact Hpp|intros; apply C_ret|intros; apply C_ret]|].
+  intros [preloc r0|x|]; try apply DC_ret.
+  apply DC_call; [split; [reflexivity|exact Hw]|]. intros [nextloc tk|x|].
+  - destruct (Nat.ltb loc nextloc); [|apply IH]. destruct overlap; [|apply IH].
+    apply lift_calls; [apply K_pre_parse; [exact Hpp|intros; apply C_ret|intros; apply C_ret]|].
+    intros [nl r1|x|]; try apply DC_ret. apply IH.
+  - destruct (is_pe (xk x)); [apply IH|apply DC_ret].
+  - apply DC_ret.
+Qed.
+
+Lemma scan_string_calls tbl root (kt : bool) input maxm overlap always_skip : fw tbl root = true ->
+  dcalls (Cs tbl (if kt then input else expandtabs input)) (scan_string root kt input maxm overlap always_skip).
+Proof. intros Hw. unfold scan_string. apply scan_loop_calls. exact Hw. Qed.
+
+(* ------------------------------------------------------------------------------------------- *)
+(* the packaged statements (Props/C03.v)                                                         *)
+(* ------------------------------------------------------------------------------------------- *)
+Theorem lr_erasure : forall (G : env) fuel m a, option_map fst (parse_lr_t G fuel m a) = parse_lr G fuel m a.
+Proof. exact parse_lr_er. Qed.
+
+Theorem lr_transparent : forall (G : env) (tbl : nat -> option nat) (s : str) fuel (m : memo) (a : args) o m',
+  forallb (fw tbl) G = true -> fw tbl (a_e a) = true -> a_s a = s ->
+  memo_ok G tbl s m ->
+  parse_lr_t G fuel m a = Some (o, m', fl0) ->
+  (exists f, parse (step G) f a = Some o) /\ memo_ok G tbl s m'.
+Proof.
+  intros G tbl s fuel m a o m' HG Hw Hs Hm H.
+  exact (parse_lr_sim G tbl s HG fuel m a o m' (conj Hs Hw) Hm H).
+Qed.
+
+(* the same, read on Model/LR.v's handler itself *)
+Theorem lr_transparent_lr : forall (G : env) (tbl : nat -> option nat) (s : str) fuel (m : memo) (a : args) o m' fl,
+  forallb (fw tbl) G = true -> fw tbl (a_e a) = true -> a_s a = s ->
+  memo_ok G tbl s m ->
+  parse_lr_t G fuel m a = Some (o, m', fl) -> fl_clean fl = true ->
+  parse_lr G fuel m a = Some (o, m') /\ (exists f, parse (step G) f a = Some o) /\ memo_ok G tbl s m'.
+Proof.
+  intros G tbl s fuel m a o m' fl HG Hw Hs Hm H Hc. split; [eapply parse_lr_t_erase; exact H|].
+  apply fl_clean_0 in Hc. subst fl. eapply lr_transparent; eassumption.
+Qed.
+
+Theorem memo_ok_empty : forall (G : env) tbl s cap, memo_ok G tbl s (memo_empty cap).
+Proof. intros. apply mall_empty. Qed.
+
+Lemma ids_consistent_split tl G root : ids_consistent tl G root = true ->
+  fw (tbl_get tl) root = true /\ forallb (fw (tbl_get tl)) G = true.
+Proof. unfold ids_consistent. intros H. apply andb_prop in H. exact H. Qed.
+
+Theorem lr_entry {R} : forall (G : env) tl root (s : str) (p : dprog R) cap fuel r m' fl,
+  ids_consistent tl G root = true ->
+  dcalls (Cs (tbl_get tl) s) p ->
+  drunm_t (parse_lr_t G fuel) (memo_empty cap) p = Some (r, m', fl) -> fl_clean fl = true ->
+  drunm (parse_lr G fuel) (memo_empty cap) p = Some (r, m') /\
+  exists f, drun (parse (step G) f) p = Some r.
+Proof.
+  intros G tl root s p cap fuel r m' fl Hid HC H Hc. apply ids_consistent_split in Hid as [Hw HG].
+  split.
+  - rewrite <- drunm_er, H. reflexivity.
+  - apply fl_clean_0 in Hc. subst fl.
+    exact (proj1 (drunm_sim G (tbl_get tl) s HG p fuel HC _ _ _ (memo_ok_empty G _ s cap) H)).
+Qed.
+
+Theorem lr_parse_string : forall (G : env) tl dw root keeptabs input parse_all cap fuel r m' fl,
+  ids_consistent tl G root = true ->
+  drunm_t (parse_lr_t G fuel) (memo_empty cap) (parse_string dw root keeptabs input parse_all) = Some (r, m', fl) ->
+  fl_clean fl = true ->
+  drunm (parse_lr G fuel) (memo_empty cap) (parse_string dw root keeptabs input parse_all) = Some (r, m') /\
+  exists f, drun (parse (step G) f) (parse_string dw root keeptabs input parse_all) = Some r.
+Proof.
+  intros G tl dw root kt input pa cap fuel r m' fl Hid H Hc.
+  eapply lr_entry; try eassumption. apply parse_string_calls. apply (ids_consistent_split _ _ _ Hid).
+Qed.
+
+Theorem lr_scan_string : forall (G : env) tl root keeptabs input maxm overlap always_skip cap fuel r m' fl,
+  ids_consistent tl G root = true ->
+  drunm_t (parse_lr_t G fuel) (memo_empty cap) (scan_string root keeptabs input maxm overlap always_skip) = Some (r, m', fl) ->
+  fl_clean fl = true ->
+  drunm (parse_lr G fuel) (memo_empty cap) (scan_string root keeptabs input maxm overlap always_skip) = Some (r, m') /\
+  exists f, drun (parse (step G) f) (scan_string root keeptabs input maxm overlap always_skip) = Some r.
+Proof.
+  intros G tl root kt input mx ov sk cap fuel r m' fl Hid H Hc.
+  eapply lr_entry; try eassumption. apply scan_string_calls. apply (ids_consistent_split _ _ _ Hid).
 Qed.
